@@ -292,6 +292,7 @@ class RunM(RunBase):
         self.raises = set(case.get('boom') or ())      # numbers (1-based, global) of the invocations that raise
         self.ncb = 0
         self.boomed = {}           # worker tid -> time of the invocation that raised
+        self.armed_twice = None    # first observation with two armed live workers of this monitor: (turn, tids)
         if case.get('ar'):
             # the Autoreloader, as far as it is a Monitor: it watches no file (match nothing), its
             # own run() is called behind the journalling probe
@@ -354,6 +355,16 @@ class RunM(RunBase):
             begin = self.tick()
             getattr(self.mon, call)()
             self.rets.append((k, call, begin, self.tick()))
+
+    def after_step(self, tid):
+        # counted at EVERY observation: workers of this monitor that are started, have not left run() and
+        # whose cancellation flag is up
+        if self.armed_twice is None:
+            armed = [t for t in self.s.order
+                     if self.s.recs[t].kind == 'worker' and not self.s.recs[t].done
+                     and self.s.recs[t].thread.__dict__.get('running')]
+            if len(armed) > 1:
+                self.armed_twice = (self.clock, armed)
 
     def _ctl2(self):
         for k, call in enumerate(self.case['calls2']):
@@ -509,7 +520,21 @@ def oracle_M(case, run):
             if n > 1:
                 bad.append(('worker %s invoked the callback %d times after %s() #%d had returned'
                             % (w, n, call, k), 'M:callbacks_after_stop'))
-    # at most one worker per monitor is active; graceful/start leave exactly one, stop leaves none
+    # at most one worker per monitor is active, at every moment: never two started, unfinished workers with
+    # their flag up; and an older worker invokes the callback at most once (the invocation in flight) after a
+    # newer worker of the same monitor has been started
+    if run.armed_twice is not None:
+        bad.append(('after turn %d two workers of the monitor are armed and alive at the same time: %s'
+                    % run.armed_twice, 'M:two_armed_workers'))
+    order = sorted(run.wstart, key=lambda w: run.wstart[w])
+    for i, old in enumerate(order):
+        for new in order[i + 1:]:
+            n = sum(1 for (t, who) in run.journal if who == old and t > run.wstart[new])
+            if n > 1:
+                bad.append(('worker %s invoked the callback %d times after its successor %s had been started'
+                            % (old, n, new), 'M:old_worker_fires_beside_new'))
+                break
+    # graceful/start leave exactly one, stop leaves none
     tdone = run.rets[-1][3] if run.rets else 0
     active = sorted(w for w in run.wstart
                     if sum(1 for (t, who) in run.journal if who == w and t > tdone) >= 2
@@ -1331,6 +1356,17 @@ def all_cases(ctx):
             for d in (4, 5, 9):
                 cases.append({'k': 'M', 'freq': 1, 'daemon': 1, 'calls': calls, 'ar': 2,
                               'sched': ['c'] * 26 + ['w1'] * b + ['w2'] * b + ['u'] + ['w1'] * d + ['w2'] * d})
+    # small scope, systematic: the controller pre-empted between any two of its shared-state accesses inside
+    # start()/graceful()/stop(), the OLD and the NEW worker given turns there (enough for two invocations),
+    # optionally a second pre-emption a few accesses later
+    for calls in (['start', 'graceful'], ['start', 'stop', 'start'], ['start', 'graceful', 'graceful']):
+        for a in range(6, 26 if quick else 34):
+            for b1, b2 in ((9, 0), (5, 5), (0, 5), (9, 5)):
+                first = ['c'] * a + ['w1'] * b1 + ['w2'] * b2
+                cases.append({'k': 'M', 'freq': 1, 'daemon': 1, 'calls': calls, 'sched': first})
+                for a2 in ((1, 3) if quick else (1, 2, 3, 5)):
+                    cases.append({'k': 'M', 'freq': 1, 'daemon': 1, 'calls': calls,
+                                  'sched': first + ['c'] * a2 + ['w1'] * 9 + ['w2'] * 5})
     for calls in (MAIN_SEQ, ['start', 'graceful', 'stop'], ['start', 'stop', 'start']):
         cases += list(gen_M_two(calls, 1, ctx.rng.choice([0, 1]), ctx.rng, 40 if quick else 1500))
     # B
